@@ -50,6 +50,13 @@ def match_batch(requests: List[Dict[str, Any]], reply_text: Optional[str], stric
             return {'verdict': 'deser', 'why': why}
     ids = [el.get('id') for el in doc]
     if any(i is None for i in ids):
+        if strict:
+            # where a null-id entry belongs is open, but it answers no call: a call without a response of its own id
+            # stays unanswered
+            call_ids = [r['id'] for r in requests if r.get('id') is not None]
+            missing = [c for c in call_ids if not any(same_id(c, i) for i in ids if i is not None)]
+            if missing:
+                return {'verdict': 'identity', 'why': f'missing {missing!r} (null-id entries answer no call)'}
         return {'verdict': 'open', 'why': 'null id inside a batch reply'}
     for a in range(len(ids)):
         for b in range(a + 1, len(ids)):
